@@ -851,6 +851,8 @@ func ruleStackAPI(c *Ctx, rule string, trusted map[string]string) {
 				ob.OKnt("every dereference is dominated by a nil test of the result or an IsEmpty()/Size() test of " + recv)
 			} else if why, ok := trusted[fnName(fn)]; ok {
 				ob.Exc("trusted (frozen table): " + why)
+			} else if why := c.trustedThroughOwner(fn, trusted); why != "" {
+				ob.Exc("trusted (frozen table, through the only function that reaches this helper): " + why)
 			} else {
 				ob.Bad(nm + "() returns nil on an empty " + recv + " and the result is dereferenced without a test")
 			}
@@ -1860,4 +1862,622 @@ func (c *Ctx) isLoopStackTop(v ssa.Value, depth int) bool {
 		return all && n > 0
 	}
 	return false
+}
+
+// ruleEveryFileIsSearched implements C07.R5: in the loop that drives the searches, every file that reaches the innermost loop is
+// searched: the call of the search function executes on every iteration that does not end in a panic or an exit (it post-dominates
+// the entry of the loop body). A pre-filter that skips a file decides "no match here" outside the matcher, from a model of the
+// pattern that the matcher does not share.
+func ruleEveryFileIsSearched(c *Ctx, rule string) {
+	r := c.R
+	fm := c.Fn("engine", "findMatches")
+	rdT := c.NamedType("files", "Reader")
+	if fm == nil || rdT == nil {
+		r.Ob(rule, "anchor engine.findMatches / files.Reader", "").Und("not found")
+		return
+	}
+	n := 0
+	for _, fn := range c.SrcFuncs("engine") {
+		k := 0
+		instrsOf(fn, func(in ssa.Instruction) {
+			call, ok := in.(*ssa.Call)
+			if !ok {
+				return
+			}
+			sc := call.Call.StaticCallee()
+			if sc == nil || !c.isRepoFn(sc) || !c.Reachable(sc)[fm] {
+				return
+			}
+			hasReader := false
+			for _, a := range call.Call.Args {
+				if p, isPtr := a.Type().(*types.Pointer); isPtr && types.Identical(p.Elem(), rdT) {
+					if _, isParam := a.(*ssa.Parameter); !isParam {
+						hasReader = true
+					}
+				}
+			}
+			if !hasReader {
+				return
+			}
+			loop := loopBlocks(fn, call.Block())
+			if loop == nil {
+				return
+			}
+			inner := innermostLoop(fn, call.Block())
+			if inner == nil {
+				return
+			}
+			n++
+			k++
+			ob := r.Ob(rule, fmt.Sprintf("%s: search call #%d runs on every iteration of its loop", fnName(fn), k), c.pos(call.Pos()))
+			// header of the innermost loop: the block of the loop with a predecessor outside it
+			var header *ssa.BasicBlock
+			for b := range inner {
+				for _, p := range b.Preds {
+					if !inner[p] && (header == nil || b.Index < header.Index) {
+						header = b
+					}
+				}
+			}
+			if header == nil {
+				ob.Und("loop header not found")
+				return
+			}
+			pd := NewPostDom(fn)
+			// entries of the body: successors of the header inside the loop
+			okAll := true
+			skipAt := ""
+			for _, s := range header.Succs {
+				if !inner[s] || pd.PostDominates(call.Block(), s) {
+					continue
+				}
+				okAll = false
+				// the first branch of the body (in dominance order) one of whose sides no longer has to pass the call
+				for _, b := range fn.Blocks {
+					if !inner[b] || skipAt != "" || !(b == s || s.Dominates(b)) || !b.Dominates(call.Block()) {
+						continue
+					}
+					if iff, ok := b.Instrs[len(b.Instrs)-1].(*ssa.If); ok {
+						for _, t := range b.Succs {
+							if t != call.Block() && !pd.PostDominates(call.Block(), t) {
+								skipAt = "`" + exprStr(iff.Cond) + "` [" + c.pos(iff.Cond.Pos()) + "]"
+							}
+						}
+					}
+				}
+			}
+			if okAll {
+				ob.OKnt("the call post-dominates the entry of the loop body")
+			} else {
+				ob.Bad("an iteration can end without the search being run (branch on " + skipAt + "): a file is declared free of matches without being matched")
+			}
+		})
+	}
+	r.Floor(rule, "search calls inside driver loops", n, 1)
+}
+
+// innermostLoop: the smallest set of blocks that forms a cycle through b (b's strongly connected component after removing, one
+// at a time, the back edges of enclosing loops): computed as the blocks that can reach b and are reachable from b without leaving
+// the smallest natural loop whose header dominates b.
+func innermostLoop(fn *ssa.Function, b *ssa.BasicBlock) map[*ssa.BasicBlock]bool {
+	var best map[*ssa.BasicBlock]bool
+	for _, h := range fn.Blocks {
+		if !h.Dominates(b) && h != b {
+			continue
+		}
+		// natural loop of header h: back edges t->h with h dominating t
+		loop := map[*ssa.BasicBlock]bool{}
+		var work []*ssa.BasicBlock
+		for _, t := range h.Preds {
+			if h.Dominates(t) || t == h {
+				work = append(work, t)
+			}
+		}
+		if len(work) == 0 {
+			continue
+		}
+		loop[h] = true
+		for len(work) > 0 {
+			x := work[len(work)-1]
+			work = work[:len(work)-1]
+			if loop[x] {
+				continue
+			}
+			loop[x] = true
+			work = append(work, x.Preds...)
+		}
+		if loop[b] && (best == nil || len(loop) < len(best)) {
+			best = loop
+		}
+	}
+	return best
+}
+
+// ruleAlternativeOrder implements C01.R7: the handler of a Branch continues with the first alternative and saves the others so that
+// backtracking tries them in written order. The backtrack stack is last-in first-out, so the checkpoints must be pushed from the last
+// alternative down to the second. Decided on index expressions: direction of the loop that pushes the checkpoints over the slice it
+// reads, composed with the direction in which that slice was filled from Branches.
+func ruleAlternativeOrder(c *Ctx, rule string) {
+	r := c.R
+	brT := c.NamedType("bytecode", "Branch")
+	cpF, jumpF := c.stateMethod("CHECKPOINT"), c.stateMethod("JUMP")
+	if brT == nil || cpF == nil || jumpF == nil {
+		r.Ob(rule, "anchor bytecode.Branch / CHECKPOINT / JUMP", "").Und("not found")
+		return
+	}
+	var h *ssa.Function
+	for _, fn := range c.SrcFuncs("engine") {
+		for _, p := range fn.Params {
+			if types.Identical(p.Type(), brT) && len(callsTo(fn, cpF)) > 0 {
+				h = fn
+			}
+		}
+	}
+	if h == nil {
+		r.Ob(rule, "anchor: the handler of bytecode.Branch", "").Und("no function of package engine takes a Branch and calls CHECKPOINT")
+		return
+	}
+	ob := r.Ob(rule, fnName(h)+": alternatives are saved last-to-second, so that they are retried in written order", c.pos(h.Pos()))
+	fromBranches := func(v ssa.Value) bool {
+		for _, s := range traceAddr(v).Steps {
+			if s.Kind == "field" && s.Field == "Branches" {
+				return true
+			}
+		}
+		return strings.Contains(exprStr(v), ".Branches")
+	}
+	// direction of an index expression inside a loop: sign of d(index)/d(iteration), 0 when unknown
+	direction := func(idx ssa.Value) int {
+		terms, _ := linearOver(idx)
+		dir := 0
+		for p, coef := range terms {
+			phi, ok := p.(*ssa.Phi)
+			if !ok {
+				continue
+			}
+			step := 0
+			for _, e := range phi.Edges {
+				if b, ok := e.(*ssa.BinOp); ok && (b.X == ssa.Value(phi) || b.Y == ssa.Value(phi)) {
+					if k, ok := constInt(b.Y); ok && b.X == ssa.Value(phi) {
+						if b.Op == token.ADD {
+							step = sign(int(k))
+						} else if b.Op == token.SUB {
+							step = -sign(int(k))
+						}
+					}
+				}
+			}
+			if step == 0 {
+				return 0
+			}
+			d := sign(int(coef)) * step
+			if dir != 0 && d != dir {
+				return 0
+			}
+			dir = d
+		}
+		return dir
+	}
+	var cp *ssa.Call
+	for _, call := range callsTo(h, cpF) {
+		if innermostLoop(h, call.Block()) != nil {
+			cp = call
+		}
+	}
+	if cp == nil {
+		ob.Und("CHECKPOINT is not called in a loop (the alternatives are not saved one by one)")
+		return
+	}
+	loop := innermostLoop(h, cp.Block())
+	// the jump target that is saved: argument of the JUMP call in the same loop that dominates the checkpoint
+	var target ssa.Value
+	for _, j := range callsTo(h, jumpF) {
+		if loop[j.Block()] && instrDominates(j, cp) && len(j.Call.Args) == 2 {
+			target = j.Call.Args[1]
+		}
+	}
+	u, ok := target.(*ssa.UnOp)
+	if target == nil || !ok {
+		ob.Und("the saved jump target is not an element of a slice")
+		return
+	}
+	ia, ok := u.X.(*ssa.IndexAddr)
+	if !ok {
+		ob.Und("the saved jump target is not an element of a slice")
+		return
+	}
+	dir1 := direction(ia.Index)
+	if dir1 == 0 {
+		ob.Und("the direction of the loop that saves the alternatives could not be determined from its index " + exprStr(ia.Index))
+		return
+	}
+	dirS := 0
+	src := ia.X
+	for {
+		if sl, ok := src.(*ssa.Slice); ok {
+			src = sl.X
+			continue
+		}
+		break
+	}
+	if fromBranches(src) {
+		dirS = 1
+	} else {
+		// a local list filled from Branches: appends or element stores in an earlier loop
+		instrsOf(h, func(in ssa.Instruction) {
+			switch x := in.(type) {
+			case *ssa.Call:
+				b, ok := x.Call.Value.(*ssa.Builtin)
+				if !ok || b.Name() != "append" || len(x.Call.Args) != 2 {
+					return
+				}
+				// append(list, Branches[e]): the appended element
+				if sl, ok := x.Call.Args[1].(*ssa.Slice); ok {
+					if a, ok := sl.X.(*ssa.Alloc); ok {
+						for _, ref := range *a.Referrers() {
+							if ia2, ok := ref.(*ssa.IndexAddr); ok {
+								for _, r2 := range *ia2.Referrers() {
+									if st, ok := r2.(*ssa.Store); ok {
+										if ld, ok := st.Val.(*ssa.UnOp); ok {
+											if ia3, ok := ld.X.(*ssa.IndexAddr); ok && fromBranches(ia3.X) {
+												dirS = direction(ia3.Index)
+											}
+										}
+									}
+								}
+							}
+						}
+					}
+				}
+			case *ssa.Store:
+				// list[j] = Branches[e]
+				if ia2, ok := x.Addr.(*ssa.IndexAddr); ok && !fromBranches(ia2.X) {
+					if ld, ok := x.Val.(*ssa.UnOp); ok {
+						if ia3, ok := ld.X.(*ssa.IndexAddr); ok && fromBranches(ia3.X) {
+							dj, de := direction(ia2.Index), direction(ia3.Index)
+							if dj != 0 && de != 0 {
+								dirS = dj * de
+							}
+						}
+					}
+				}
+			}
+		})
+	}
+	switch dir1 * dirS {
+	case -1:
+		ob.OKnt("the checkpoints are pushed in descending order of the alternatives (the last-pushed one is the second alternative)")
+	case 1:
+		ob.Bad("the checkpoints are pushed in ascending order of the alternatives: the backtrack stack returns the last alternative first, so from the third alternative on `in`/`or` lists are retried in reverse order and a different match is reported")
+	default:
+		ob.Und("the order in which the alternatives are saved could not be determined")
+	}
+}
+
+func sign(x int) int {
+	switch {
+	case x > 0:
+		return 1
+	case x < 0:
+		return -1
+	}
+	return 0
+}
+
+// linearOver flattens an integer expression built from + and - into coefficients per non-constant leaf value.
+func linearOver(v ssa.Value) (map[ssa.Value]int64, int64) {
+	terms := map[ssa.Value]int64{}
+	var konst int64
+	var walk func(v ssa.Value, s int64, d int)
+	walk = func(v ssa.Value, s int64, d int) {
+		if k, ok := constInt(v); ok {
+			konst += s * k
+			return
+		}
+		if b, ok := v.(*ssa.BinOp); ok && d < 16 {
+			switch b.Op {
+			case token.ADD:
+				walk(b.X, s, d+1)
+				walk(b.Y, s, d+1)
+				return
+			case token.SUB:
+				walk(b.X, s, d+1)
+				walk(b.Y, -s, d+1)
+				return
+			}
+		}
+		if cv, ok := v.(*ssa.Convert); ok {
+			walk(cv.X, s, d+1)
+			return
+		}
+		terms[v] += s
+	}
+	walk(v, 1, 0)
+	return terms, konst
+}
+
+// ruleEmptyReadsNotIndexed implements C09.R13: READ/READAT/Reader.Read/ReadAt return "" at the end of the input. Such a value, or a
+// string parameter that call sites fill with such a value, must not be indexed (s[k]) unless a test of its length dominates the index.
+func ruleEmptyReadsNotIndexed(c *Ctx, rule string) {
+	r := c.R
+	readFns := map[*ssa.Function]bool{}
+	for _, n := range []string{"READ", "READAT"} {
+		if f := c.stateMethod(n); f != nil {
+			readFns[f] = true
+		}
+	}
+	for _, n := range []string{"Read", "ReadAt"} {
+		if f := c.Method("files", "Reader", n); f != nil {
+			readFns[f] = true
+		}
+	}
+	if len(readFns) == 0 {
+		r.Ob(rule, "anchor READ/READAT/Reader.Read", "").Und("not found")
+		return
+	}
+	mayBeEmpty := func(v ssa.Value) bool {
+		call, ok := v.(*ssa.Call)
+		return ok && readFns[call.Call.StaticCallee()]
+	}
+	isString := func(v ssa.Value) bool {
+		b, ok := v.Type().Underlying().(*types.Basic)
+		return ok && b.Info()&types.IsString != 0
+	}
+	reach := c.Reachable(c.runRoots()...)
+	// indexOf: instructions that index a string value
+	type site struct {
+		in ssa.Instruction
+		x  ssa.Value
+	}
+	stringIndexes := func(fn *ssa.Function) []site {
+		var out []site
+		instrsOf(fn, func(in ssa.Instruction) {
+			switch x := in.(type) {
+			case *ssa.Index:
+				if isString(x.X) {
+					out = append(out, site{in, x.X})
+				}
+			case *ssa.Lookup:
+				if isString(x.X) {
+					out = append(out, site{in, x.X})
+				}
+			}
+		})
+		return out
+	}
+	// parameters that are indexed without a length test: the obligation moves to the call sites
+	needsNonEmpty := map[*ssa.Function]map[int]ssa.Instruction{}
+	n := 0
+	for fn := range reach {
+		if !c.isRepoFn(fn) || len(fn.Blocks) == 0 {
+			continue
+		}
+		for _, s := range stringIndexes(fn) {
+			if lengthPositiveAt(fn, "len("+exprStr(s.x)+")", s.in) || lengthIsAt(fn, "len("+exprStr(s.x)+")", s.in) {
+				continue
+			}
+			if p, ok := s.x.(*ssa.Parameter); ok {
+				for i, q := range fn.Params {
+					if q == p {
+						if needsNonEmpty[fn] == nil {
+							needsNonEmpty[fn] = map[int]ssa.Instruction{}
+						}
+						needsNonEmpty[fn][i] = s.in
+					}
+				}
+				continue
+			}
+			if mayBeEmpty(s.x) {
+				n++
+				r.Ob(rule, fmt.Sprintf("%s: %s is indexed only when it is not empty", fnName(fn), exprStr(s.x)), c.pos(s.in.Pos())).Bad(
+					"the value read from the input is indexed without a test of its length: at the end of the input it is \"\" and the index panics")
+			}
+		}
+	}
+	for _, fn := range sortedFns(reach) {
+		if !c.isRepoFn(fn) || len(fn.Blocks) == 0 {
+			continue
+		}
+		k := 0
+		instrsOf(fn, func(in ssa.Instruction) {
+			call, ok := in.(*ssa.Call)
+			if !ok {
+				return
+			}
+			callee := call.Call.StaticCallee()
+			need := needsNonEmpty[callee]
+			if need == nil {
+				return
+			}
+			for i, at := range need {
+				if i >= len(call.Call.Args) || !mayBeEmpty(call.Call.Args[i]) {
+					continue
+				}
+				n++
+				k++
+				ob := r.Ob(rule, fmt.Sprintf("%s: call #%d of %s passes a non-empty read", fnName(fn), k, callee.Name()), c.pos(call.Pos()))
+				a := call.Call.Args[i]
+				if lengthPositiveAt(fn, "len("+exprStr(a)+")", call) || lengthIsAt(fn, "len("+exprStr(a)+")", call) {
+					ob.OKnt("a test of the length of the value dominates the call")
+				} else if positionGuarded(fn, a, call) {
+					ob.OKnt("the read is made at a position that a dominating test shows to be inside the input")
+				} else {
+					ob.Bad(fmt.Sprintf("%s indexes its argument without a length test [%s] and this call passes %s, which is \"\" at the end of the input: the index panics", callee.Name(), c.pos(at.Pos()), exprStr(a)))
+				}
+			}
+		})
+	}
+	r.Stats["possibly_empty_reads_that_are_indexed"] = n
+	if n == 0 {
+		r.Ob(rule, "no possibly empty read is indexed", "").OK("no value returned by READ/READAT/Read/ReadAt is indexed, directly or as an argument of a function that indexes its parameter unguarded")
+	}
+}
+
+// lengthIsAt: a dominating branch establishes len(x) == k for a constant k >= 1 (the other case left, e.g. by a panic).
+func lengthIsAt(fn *ssa.Function, lenStr string, at ssa.Instruction) bool {
+	for _, b := range fn.Blocks {
+		iff, ok := b.Instrs[len(b.Instrs)-1].(*ssa.If)
+		if !ok {
+			continue
+		}
+		bo, ok := iff.Cond.(*ssa.BinOp)
+		if !ok || exprStr(bo.X) != lenStr {
+			continue
+		}
+		k, isC := constInt(bo.Y)
+		if !isC || k < 1 {
+			continue
+		}
+		var okSucc *ssa.BasicBlock
+		switch bo.Op {
+		case token.EQL:
+			okSucc = b.Succs[0]
+		case token.NEQ:
+			okSucc = b.Succs[1]
+		}
+		if okSucc != nil && (okSucc == at.Block() || okSucc.Dominates(at.Block())) {
+			return true
+		}
+	}
+	return false
+}
+
+// positionGuarded: the possibly empty read `a` (READ(1) at the current offset, or READAT(offset-1, 1)) is made under a dominating
+// test that the offset is not at the end of the input (resp. not at its start), so it returns one byte.
+func positionGuarded(fn *ssa.Function, a ssa.Value, at ssa.Instruction) bool {
+	call, ok := a.(*ssa.Call)
+	if !ok || call.Call.StaticCallee() == nil {
+		return false
+	}
+	name := call.Call.StaticCallee().Name()
+	for _, l := range domConds(fn, at.Block()) {
+		b, ok := l.Cond.(*ssa.BinOp)
+		if !ok {
+			continue
+		}
+		x, y := exprStr(b.X), exprStr(b.Y)
+		off := strings.HasSuffix(x, ".currentFileOffset")
+		switch {
+		case name == "READ" && off && strings.HasSuffix(y, ".reader.Size()"):
+			// not at the end: (off == size) false, (off != size) true, (off < size) true, (off >= size) false
+			if (b.Op == token.EQL && !l.Pol) || (b.Op == token.NEQ && l.Pol) || (b.Op == token.LSS && l.Pol) || (b.Op == token.GEQ && !l.Pol) {
+				return true
+			}
+		case name == "READAT" && off:
+			if k, isC := constInt(b.Y); isC && k == 0 {
+				if (b.Op == token.EQL && !l.Pol) || (b.Op == token.NEQ && l.Pol) || (b.Op == token.GTR && l.Pol) || (b.Op == token.LEQ && !l.Pol) {
+					return true
+				}
+			}
+		}
+	}
+	return false
+}
+
+// ruleJumpsGoForward implements C10.R8: outside StartLoop/StopLoop (whose re-entry passes the zero-width guard) the generator emits
+// only forward jumps. For every Jump literal appended to an instruction list, the target must be computed from the length of every
+// instruction slice that was appended to the list before it in that function: a target that does not depend on code emitted earlier
+// lands at or before that code, and a backward jump that bypasses matchStartLoop can spin on a zero-width body.
+func ruleJumpsGoForward(c *Ctx, rule string) {
+	r := c.R
+	jT := c.NamedType("bytecode", "Jump")
+	if jT == nil {
+		r.Ob(rule, "anchor bytecode.Jump", "").Und("not found")
+		return
+	}
+	n := 0
+	for _, fn := range c.SrcFuncs("bytecode") {
+		// Jump literals: allocations of Jump whose NewProgramCounter field is stored
+		type jl struct {
+			target ssa.Value
+			at     ssa.Instruction
+		}
+		var jumps []jl
+		instrsOf(fn, func(in ssa.Instruction) {
+			st, ok := in.(*ssa.Store)
+			if !ok {
+				return
+			}
+			fa, ok := st.Addr.(*ssa.FieldAddr)
+			if !ok || !types.Identical(deref(fa.X.Type()), jT) || fieldName(jT, fa.Field) != "NewProgramCounter" {
+				return
+			}
+			if _, isAlloc := fa.X.(*ssa.Alloc); isAlloc {
+				jumps = append(jumps, jl{st.Val, st})
+			}
+		})
+		if len(jumps) == 0 {
+			continue
+		}
+		// instruction slices appended with `...` in this function
+		type app struct {
+			x    ssa.Value
+			call *ssa.Call
+		}
+		var apps []app
+		instrsOf(fn, func(in ssa.Instruction) {
+			call, ok := in.(*ssa.Call)
+			if !ok {
+				return
+			}
+			b, ok := call.Call.Value.(*ssa.Builtin)
+			if !ok || b.Name() != "append" || len(call.Call.Args) != 2 {
+				return
+			}
+			x := call.Call.Args[1]
+			if sl, isSlice := x.(*ssa.Slice); isSlice {
+				if _, fresh := sl.X.(*ssa.Alloc); fresh {
+					return // a single element literal
+				}
+			}
+			if st, ok := x.Type().Underlying().(*types.Slice); ok {
+				if n, ok := st.Elem().(*types.Named); ok && n.Obj().Name() == "SearchInstruction" {
+					apps = append(apps, app{x, call})
+				}
+			}
+		})
+		for i, j := range jumps {
+			n++
+			ob := r.Ob(rule, fmt.Sprintf("%s: Jump #%d goes past everything emitted before it", fnName(fn), i+1), c.pos(j.at.Pos()))
+			var missing []string
+			for _, a := range apps {
+				if !instrDominates(a.call, j.at) {
+					continue
+				}
+				src := map[ssa.Value]bool{a.x: true}
+				// an element taken out of a list of instruction lists: the list counts as well
+				if u, ok := a.x.(*ssa.UnOp); ok {
+					if ia, ok := u.X.(*ssa.IndexAddr); ok {
+						src[ia.X] = true
+					}
+				}
+				deps := dataDeps(fn, src)
+				if !deps[j.target] {
+					missing = append(missing, exprStr(a.x))
+				}
+			}
+			if len(missing) == 0 {
+				ob.OKnt("the target " + exprStr(j.target) + " is computed from the length of every instruction slice appended before the jump")
+			} else {
+				ob.Bad("the target " + exprStr(j.target) + " does not depend on the length of " + strings.Join(uniq(missing), ", ") + ", which is emitted before the jump: the jump goes back to (or into) that code without passing the loop's zero-width guard, so a body that can match the empty string spins forever")
+			}
+		}
+	}
+	r.Floor(rule, "Jump literals in the generator", n, 2)
+}
+
+// trustedThroughOwner: fn is reachable from the API only through a function that has an entry in the trusted table (a helper that
+// was split off a trusted function keeps the argument that was made for it).
+func (c *Ctx) trustedThroughOwner(fn *ssa.Function, trusted map[string]string) string {
+	roots := append(c.runRoots(), c.compileRoots()...)
+	for owner := range c.allFns {
+		why, ok := trusted[fnName(owner)]
+		if !ok || owner == fn || !c.isRepoFn(owner) {
+			continue
+		}
+		if c.Reachable(owner)[fn] && c.onlyThrough(roots, owner, fn) {
+			return why
+		}
+	}
+	return ""
 }
